@@ -246,6 +246,44 @@ theorem C19_additions_slices (pr : K → Tok K) (nd N : ℕ) (fs : List (FrameSp
       = (fs[n]).atoms.map (Lammps.Spec.atomLine pr nd) :=
   slice_emit pr nd N fs hN n hn
 
+/-! ### non-vacuity of the reader theorems: a shuffled 3-atom orthogonal `xs` frame with one numeric extra column -/
+
+def exAtoms : List (AtomSpec ℚ) :=
+  [⟨3, 1, fun i => [1/4, 1/2, 3/4].getD i 0, [.num (3/2)]⟩, ⟨1, 2, fun i => [0, 1, 1/8].getD i 0, [.int 7]⟩,
+   ⟨2, 1, fun i => [9/10, 1/10, 1/2].getD i 0, [.num (-1/4)]⟩]
+def exFrame : FrameSpec ℚ :=
+  ⟨100, false, .xs, fun i => [-1, 2, 0].getD i 0, fun i => [4, 5, 3].getD i 0, 0, 0, 0, ["pp", "pp", "pp"], ["q"], exAtoms⟩
+def exMol : ℤ → Option ℤ := fun t => if t = 1 then some 5 else none
+
+example : Impl.readCenterAll 3 exMol (Lammps.Spec.emit Tok.num 3 [exFrame]) = .ok [Spec.center 3 exMol exFrame] ∧
+    (Spec.center 3 exMol exFrame).ptype = [5, 5] :=
+  ⟨C19_centertype Tok.num (fun _ => rfl) exMol 3 (Or.inr rfl) [exFrame] (by
+      intro f hf
+      simp only [List.mem_cons, List.not_mem_nil, or_false] at hf
+      subst hf
+      exact ⟨(⟨by show List.Perm [3, 1, 2] [((0:ℕ):ℤ) + 1, ((1:ℕ):ℤ) + 1, ((2:ℕ):ℤ) + 1]; decide, by decide, by decide⟩ : Lammps.Spec.WF exFrame), rfl⟩), by decide +kernel⟩
+
+example : Impl.readVectorAll 3 [6, 1] (Lammps.Spec.emit Tok.num 3 [exFrame]) = .ok [Spec.vector 3 [6, 1] exFrame] ∧
+    (Spec.vector 3 [6, 1] exFrame).positions = [[7, 1], [-1/4, 2], [3/2, 3]] :=
+  ⟨C19_vector_columns Tok.num (fun _ => rfl) [6, 1] (by decide) 3 (Or.inr rfl) [exFrame] (by
+      intro f hf
+      simp only [List.mem_cons, List.not_mem_nil, or_false] at hf
+      subst hf
+      refine ⟨(⟨by show List.Perm [3, 1, 2] [((0:ℕ):ℤ) + 1, ((1:ℕ):ℤ) + 1, ((2:ℕ):ℤ) + 1]; decide, by decide, by decide⟩ : Lammps.Spec.WF exFrame), rfl, ?_⟩
+      intro a ha c hc
+      simp only [exFrame, exAtoms, List.mem_cons, List.not_mem_nil, or_false] at ha hc
+      rcases ha with rfl | rfl | rfl <;> rcases hc with rfl | rfl <;> decide +kernel), by decide +kernel⟩
+
+def exD : HeaderData ℚ := ⟨7, 2, 1, 2, fun i j => ([[-5/4, 7/2], [1/2, 9/2]].getD i []).getD j 0, ["order"]⟩
+def exHAtoms : List (AtomSpec ℚ) :=
+  [⟨2, 1, fun i => [0, 1].getD i 0, [.num (1/2)]⟩, ⟨1, 2, fun i => [1, 2].getD i 0, [.int 3]⟩]
+
+example : Lammps.Impl.readFrame 2
+      (render Tok.num (fun _ x => x) Gen.Writer.dumpHeader exD ++ exHAtoms.map (Lammps.Spec.atomLine Tok.num 2) ++ [])
+      = .ok (some (Lammps.Spec.expected 2 (Spec.writtenFrame 2 (fun _ x => x) exD exHAtoms), [])) :=
+  C19_header_roundtrip Tok.num (fun _ => rfl) (fun _ x => x) 2 (Or.inl rfl) exD exHAtoms rfl rfl
+    (by show List.Perm [2, 1] [((0:ℕ):ℤ) + 1, ((1:ℕ):ℤ) + 1]; decide) (by decide) []
+
 /-! ## `read_lammpslog` -/
 
 /-- **Log sections.**  A log made of any leading lines and ANY number `k ≥ 0` of complete thermodynamic sections
@@ -265,6 +303,19 @@ theorem C19_log_count (pre : Lines K) (ss : List (Spec.Section K)) (hwf : ∀ s 
     (Impl.readLog (Spec.emitLog pre ss)).toOption.map List.length = some ss.length := by
   rw [C19_log_sections pre ss hwf hpre last hlast hnum]
   simp [Except.toOption]
+
+/-- **Incomplete trailing section** — what happens: if after `k` complete sections the log ends inside a section (a
+`Step …` header and `m ≥ 2` rows, the last line starting with digits), the reader returns the `k` complete sections in
+full and then the open section WITHOUT its last two rows (the possibly half-written last row and the one before).
+(With fewer than two rows `pd.read_csv` is called with a negative `nrows` and raises ValueError — see design/C19.md.) -/
+theorem C19_log_incomplete (pre : Lines K) (ss : List (Spec.Section K)) (hwf : ∀ s ∈ ss, Spec.SectionWF s)
+    (hpre : ∀ l ∈ pre, Spec.plain l) (hdr : Line K) (rows : Lines K)
+    (hh : Impl.isStep hdr = true ∧ Impl.isLoop hdr = false) (hr : ∀ l ∈ rows, Spec.plain l)
+    (hm : 2 ≤ rows.length) (last : Line K) (hlast : rows.getLast? = some last)
+    (hnum : last.isEmpty = false ∧ Impl.firstNumeric last = true) :
+    Impl.readLog (Spec.emitLog pre ss ++ hdr :: rows)
+      = .ok ((ss.map fun s => ⟨s.header, s.rows⟩) ++ [⟨hdr, rows.take (rows.length - 2)⟩]) :=
+  readLog_incomplete pre ss hwf hpre hdr rows hh hr hm last hlast hnum
 
 /-- non-vacuity: a two-section log with noise lines and a blank line -/
 def exLog : List (Spec.Section ℚ) :=
